@@ -75,12 +75,12 @@ CHECKS = {
             "expected type and required attributes, an own or absent Destination, an IssueInstant within a day, a genuine verification of the "
             "request element itself under the issuer's key if it is signed (signed if wanted), and equal the signed original.",
             TRUST, "3/C10"),
-    "C11": ("exploration", "hostile-document workload over introspected entry points with audit-hook, parser-construction and tool-log monitors",
+    "C11": ("exploration", "hostile-document workload over introspected entry points with audit-hook, parser-construction, tool-log and strace (system-call) monitors",
             "Feeds a catalogue of hostile documents (internal/external/parameter entities, billion laughs, external DTD, XInclude, stylesheet PI, "
             "UTF-16/BOM, truncations, non-XML) to every *_from_string of every schema module, the generic constructors, the SOAP/pack readers, the "
             "metadata loaders and the client/server parse functions in every binding. Monitors: sys.addaudithook (file/socket/urllib/subprocess), "
             "wrappers on all stdlib parser entry points installed before the package is imported (every parser built inside the package must be the "
-            "defused one), canary text in results, and the xmlsec driver log. A syntactic inventory of parsing call sites measures reach; an "
+            "defused one), canary text in results, the xmlsec driver log, and a strace -f system-call log of the whole process tree. A syntactic inventory of parsing call sites measures reach; an "
             "unreached site makes the run inconclusive.",
             TRUST, "3/C11"),
     "C12": ("exploration", "generated instance trees for every schema class + independent structural comparator and independent parse",
